@@ -30,7 +30,7 @@ import (
 )
 
 func init() {
-	register(&Scenario{Name: "lbmix", Props: []string{"C12", "C03"}, Kind: "micro", Run: runLBMix})
+	register(&Scenario{Name: "lbmix", Props: []string{"C12", "C03", "C11"}, Kind: "micro", Run: runLBMix})
 }
 
 func runLBMix(x *X) {
